@@ -290,16 +290,14 @@ func specCheck(pc *permConfig, client, path, op string) (bool, bool) {
 	if client == "" {
 		return false, true
 	}
+	// the wallet is what precedes the FIRST slash; the account name is all the rest (it may contain slashes)
 	parts := strings.SplitN(path, "/", 2)
-	if parts[0] == "" || strings.Contains(path, "//") {
+	if parts[0] == "" {
 		return false, false
 	}
 	wallet, account := parts[0], ""
 	if len(parts) == 2 {
 		account = parts[1]
-	}
-	if strings.Contains(account, "/") {
-		return false, false
 	}
 	entries, exists := pc.Entries[client]
 	if !exists {
